@@ -36,11 +36,15 @@ def design(ctx, cfgs, workers_each=5):
 
 
 def export(ctx, family):
+    """Returns the exported configurations as compact JSON strings (tens of thousands of nested dicts would cost GBs)."""
     prefix = "GenRP_" if ctx.tier == "quick" else "GenRPT_"
+    out = []
     r = vlib.tlc_ok(vlib.tlc("MCReaderPipeline", prefix + "%s.cfg" % family, workers=4, timeout=1500, tag="genrp_" + family,
-                             keep_out=False), "export " + family)
+                             keep_out=False, case_cb=lambda p: out.append(json.dumps(p, separators=(",", ":")))), "export " + family)
     ctx.add_tlc(r, "export of configurations with Expected(cfg): family " + family)
-    return r.cases
+    if not out:
+        raise vlib.ModelFailure("export of family %s produced no configuration" % family)
+    return out
 
 
 def parallel(*thunks):
@@ -67,14 +71,18 @@ def fault_key(c):
     return "%s@%s%s" % (f["k"], f["at"], "p" if f["pre"] else "")
 
 
-def sample(cases, k, rnd, key=None):
-    """stratified sample: round-robin over the strata given by key"""
-    if len(cases) <= k:
-        return list(cases)
+def sample(cases, k, rnd, key=None, pred=None):
+    """stratified sample: round-robin over the strata given by key.  cases: JSON strings (from export) or dicts;
+    pred filters; returns dicts."""
     key = key or (lambda c: (fault_key(c), len(c["cfg"]["script"])))
     strata = {}
-    for c in cases:
-        strata.setdefault(key(c), []).append(c)
+    n = 0
+    for raw in cases:
+        c = json.loads(raw) if isinstance(raw, str) else raw
+        if pred and not pred(c):
+            continue
+        strata.setdefault(key(c), []).append(raw)
+        n += 1
     for v in strata.values():
         rnd.shuffle(v)
     out = []
@@ -83,7 +91,8 @@ def sample(cases, k, rnd, key=None):
     while len(out) < k and keys:
         kk = keys[i % len(keys)]
         if strata[kk]:
-            out.append(strata[kk].pop())
+            raw = strata[kk].pop()
+            out.append(json.loads(raw) if isinstance(raw, str) else raw)
             i += 1
         else:
             keys.remove(kk)
